@@ -24,7 +24,7 @@ func init() {
 			c.OverdraftDiagnosticUnconditional(ob7)
 			ob8 := c.R.Ob("C17.8", "sibling/inferred-type", "the type the checker infers for a variable is its declared type (what the interpreter reads it as), or 'unknown'", 1)
 			c.InferredVariableTypeIsDeclared(ob8)
-			ob9 := c.R.Ob("C17.9", "typestate/save-restore", "scoped overrides of the checker's send-all state restore the value read on entry (a leaked setting hides a send-all shape error)", 3)
+			ob9 := c.R.Ob("C17.9", "typestate/save-restore", "scoped overrides of the checker's send-all state restore the value read on entry (a leaked setting hides a send-all shape error)", 1)
 			c.SaveRestoreClosures(ob9)
 			ob11 := c.R.Ob("C17.11", "typestate/per-statement", "the per-statement fields of the check state (send-all flag, emptied accounts, unbounded account met) are assigned for the statement at hand before anything reads them", 1)
 			c.PerStatementStateAssignedBeforeRead(ob11, relAnalysis, "CheckResult")
@@ -46,7 +46,7 @@ func init() {
 			c.OverdraftSendAllConditional(ob2)
 			ob3 := c.R.Ob("C16.3", "ctrl/names", "variable-name diagnostics and resolutions sit on the right edges of the declaration lookup", 4)
 			c.NameBookkeeping(ob3)
-			ob5 := c.R.Ob("C16.5", "typestate/save-restore", "scoped overrides of the checker's send-all / emptied-account state restore, on exit, the value read on entry", 3)
+			ob5 := c.R.Ob("C16.5", "typestate/save-restore", "scoped overrides of the checker's send-all / emptied-account state restore, on exit, the value read on entry", 1)
 			c.SaveRestoreClosures(ob5)
 			ob4 := c.R.Ob("C16.4", "sumcheck/S2", "every expression child of every node kind is handed to the expression checker", 15)
 			c.S2(ob4, famCheck)
